@@ -139,3 +139,55 @@ class Pipeline:
     def where(self, bb):
         blk = self.b.blocks[bb]
         return "%s (%s)" % (blk["term"]["at"] if blk["term"] else "?", blk.get("origin", ""))
+
+
+class Stages:
+    """Stage loops of the pipeline located by what they contain."""
+
+    def __init__(self, P):
+        self.P = P
+        b = P.b
+        self.b = b
+        self.loops = b.loops()
+        run_bbs = {i for (i, t) in P.runs}
+        self.run_bbs = run_bbs
+        def outer_loop_of(blocks, must_exclude=()):
+            """Largest natural loop containing all `blocks` and none of `must_exclude`."""
+            cands = [l for l in self.loops.values() if all(x in l for x in blocks) and not any(x in l for x in must_exclude)]
+            return max(cands, key=len) if cands else None
+        self.outer_loop_of = outer_loop_of
+        self.load = outer_loop_of([i for (i, t) in P.file_reads][:1]) if P.file_reads else None
+        self.thresh = outer_loop_of([i for (i, t) in P.link_verifies][:1]) if P.link_verifies else None
+        self.sub = outer_loop_of([i for (i, t) in P.recursions][:1], run_bbs) if P.recursions else None
+        # agreement: comparison of .materials / .products between two LinkMetadata values
+        agree_blocks = []
+        for (e, tb, f) in b.all_edge_facts():
+            c = as_cmp(f)
+            if not c:
+                continue
+            for x in (c[1], c[2]):
+                for lf in b.trace(x):
+                    if lf.kind != "const" and lf.path[-1:] in ((fld("materials"),), (fld("products"),)):
+                        agree_blocks.append(e[0])
+        self.agree_blocks = sorted(set(agree_blocks))
+        self.agree = outer_loop_of(self.agree_blocks[:1], run_bbs) if self.agree_blocks else None
+        # rule engine instances: blocks switching on the discriminant of an ArtifactRule
+        rule_blocks = {}
+        for (e, tb, f) in b.all_edge_facts():
+            if f[0] in ("variant", "notvariant") and (f[3] or "").endswith("rule::ArtifactRule"):
+                inst = b.blocks[e[0]].get("inst", "")
+                top = "/".join(inst.split("/")[:2])
+                rule_blocks.setdefault(top, set()).add(e[0])
+        self.rule_instances = []
+        for top, blks in sorted(rule_blocks.items()):
+            lp = outer_loop_of(sorted(blks)[:1], run_bbs)
+            self.rule_instances.append((top, blks, lp))
+
+    def _ty_of(self, op):
+        p = op_place(op)
+        if p is None:
+            return ""
+        return self.b.local_ty(p["l"])
+
+    def exhaustion(self, loop):
+        return self.b.loop_exhaustion_edges(loop) if loop else []
